@@ -351,9 +351,9 @@ def run_hybrid(meta):
                     G.warmup(op[1], tune_freq=op[2])
         obs["events"] = tr.events
         obs["cur"] = tr.snapshot()
-        nsw = len(G.samples[spec["names"][0]])
-        obs["stored"] = [[[float(a) for a in np.asarray(G.samples[n][t]).ravel()] for n in spec["names"]] for t in range(nsw)]
         obs["stored_lens"] = [len(G.samples[n]) for n in spec["names"]]
+        nsw = min(obs["stored_lens"])
+        obs["stored"] = [[[float(a) for a in np.asarray(G.samples[n][t]).ravel()] for n in spec["names"]] for t in range(nsw)]
         ss = []
         for i, nm in enumerate(spec["names"]):
             smp = G.samplers[nm]
@@ -1077,7 +1077,7 @@ def tree_variant(ctx=None):
         _STATE["fresh"] = d is None and not obs.get("error")
         e = obs["events"][2] if len(obs.get("events", [])) > 2 else None
         dec = ""
-        if e is not None:
+        if e is not None and len(obs.get("stored", [])) > 1:
             dec = (" | decision: from x=1 with s=-2 the proposal x*=-1 has MH log-ratio +4 under the current conditional (accept for every u); "
                    "observed x after the update: %s (u=0.9375)" % obs["stored"][1][0])
         _STATE["detail"] = (d or "cached evaluations are refreshed") + dec
@@ -1214,6 +1214,10 @@ def real_sampler(meta, i, tr):
         kw["scale"] = sc
     if meta["assign"][i] == "NUTS":
         kw["max_depth"] = 3
+    if meta["assign"][i] == "LinearRTO":
+        # CGLS converges in dim steps in exact arithmetic; a few more with tol 1e-10 (iterating far beyond convergence makes
+        # CGLS divide by round-off and blow up -- seen with maxit=200, tol=1e-14): the zero-noise draw is then the conditional mean
+        kw["maxit"], kw["tol"] = len(ip) + 3, 1e-10
     smp = W(**kw)
     smp._tr, smp._blk = tr, i
     return smp
@@ -1246,9 +1250,9 @@ def run_real(meta):
         obs["events"] = tr.events
         obs["results"] = tr.results
         obs["cur"] = tr.snapshot()
-        nsw = len(G.samples[spec["names"][0]])
-        obs["stored"] = [[[float(a) for a in np.asarray(G.samples[n][t]).ravel()] for n in spec["names"]] for t in range(nsw)]
         obs["stored_lens"] = [len(G.samples[n]) for n in spec["names"]]
+        nsw = min(obs["stored_lens"])
+        obs["stored"] = [[[float(a) for a in np.asarray(G.samples[n][t]).ravel()] for n in spec["names"]] for t in range(nsw)]
         obs["stored_shapes"] = [[list(np.shape(G.samples[n][t])) for n in spec["names"]] for t in range(nsw)]
         obs["samplers"] = [{"pt": [float(a) for a in np.asarray(G.samplers[nm].current_point).ravel()], "cache": None, "scale": 1.0,
                             "acc": [0] * len(G.samplers[nm]._acc), "tunes": [], "init": [], "leftover": 0} for nm in spec["names"]]
